@@ -1,9 +1,11 @@
 (* Extraction of the executable models and oracles.  ExtrOcamlBasic only:
    bool/option/unit/list/prod/sumbool/sumor map to OCaml's; nat, positive, N, Z stay Coq datatypes. *)
 From Coq Require Import Extraction ExtrOcamlBasic.
-From SV Require Import Diff Det DiffOracle Lines Config gen_Consts.
+From SV Require Import Diff Det DiffOracle Lines Config gen_Consts Exec.
 Extraction Language OCaml.
 Extraction "svmodel.ml"
   diff accepts describedb conservation_b detb split_lines
   with_defaults with_overrides with_environment effective dwith_defaults dwith_overrides lookup precedence_b tempty dempty
-  tc_default_markdown tc_default_cram default_skip_document_code default_document_timeout_ms.
+  tc_default_markdown tc_default_cram default_skip_document_code default_document_timeout_ms
+  exec exec_timed limits_of gs_of doc_results verdict exit_status effective_limit count is_success is_failure is_skipped is_reported
+  exec_script run_docs run_exit run_outcomes stream_ok.
